@@ -6,13 +6,30 @@ import (
 	"vchk/testdata/c19/sql"
 )
 
+var lenient bool
+
+// repair zeroes the first nil cell (stands in for the IGNORE conversion of an offending value).
+func repair(r sql.Row) sql.Row {
+	for i := range r {
+		if r[i] == nil {
+			r[i] = 0
+			break
+		}
+	}
+	return r
+}
+
 // applyGood: explicit half, then – if there are derived expressions and the row changed – the derived half.
 func applyGood(ctx *sql.Context, ue *plan.UpdateExprs, sch sql.Schema, row sql.Row) (sql.Row, error) {
 	before := row
 	for _, e := range ue.Explicit() {
 		val, err := e.Eval(row)
 		if err != nil {
-			return nil, err
+			if !lenient {
+				return nil, err
+			}
+			cpy := append(sql.Row{}, row...)
+			val = repair(cpy)
 		}
 		row = val.(sql.Row)
 	}
@@ -131,6 +148,38 @@ func (u *upserter) upsertRestart(ctx *sql.Context, old, proposed sql.Row) (sql.R
 	}
 	if u.exprs.HasDerived() {
 		acc, err = u.applyAll(u.exprs.Derived(), append(old, proposed...))
+		if err != nil {
+			return nil, err
+		}
+	}
+	merged := acc[:len(old)]
+	if err := u.updater.Update(ctx, old, merged); err != nil {
+		return nil, err
+	}
+	return merged, nil
+}
+
+// applyLenient repairs a failed evaluation in the proposed row, which then takes the place of the
+// row being updated. BUG (C19-G3 repair-from-accumulator).
+func (u *upserter) applyLenient(list []sql.Expression, acc, proposed sql.Row) (sql.Row, error) {
+	for _, e := range list {
+		val, err := e.Eval(acc)
+		if err != nil {
+			val = repair(proposed)
+		}
+		acc = val.(sql.Row)
+	}
+	return acc, nil
+}
+
+// upsertLenient is a correct applier on top of the broken loop function.
+func (u *upserter) upsertLenient(ctx *sql.Context, old, proposed sql.Row) (sql.Row, error) {
+	acc, err := u.applyLenient(u.exprs.Explicit(), append(old, proposed...), proposed)
+	if err != nil {
+		return nil, err
+	}
+	if u.exprs.HasDerived() {
+		acc, err = u.applyLenient(u.exprs.Derived(), acc, proposed)
 		if err != nil {
 			return nil, err
 		}
